@@ -104,6 +104,10 @@ class BaseTaskPool:
 
         # Synchronisation primitives necessary for managing the pool.
         self._enough_room: Semaphore = Semaphore()
+        self._pool_size: float | None = None  # set by the `pool_size` setter
+        # Number of releases to swallow after the pool was shrunk below the
+        # number of tasks occupying it at that moment:
+        self._room_debt: int = 0
         # Cancellation requests for tasks that have not had their first step:
         self._cancel_on_start: Dict[int, Dict[str, str]] = {}
         self._task_groups: Dict[str, TaskGroupRegister] = {}
@@ -124,7 +128,9 @@ class BaseTaskPool:
     @property
     def pool_size(self) -> int:
         """Maximum number of concurrently running tasks allowed in the pool."""
-        return self._enough_room._value
+        if self._pool_size is None:
+            return self._enough_room._value
+        return self._pool_size  # type: ignore[return-value]
 
     @pool_size.setter
     def pool_size(self, value: int) -> None:
@@ -142,7 +148,23 @@ class BaseTaskPool:
         """
         if value < 0:
             raise ValueError("Pool size can not be less than 0")  # noqa: TRY003
-        self._enough_room._value = value
+        if self._pool_size is None or self._pool_size == inf:
+            # Nothing can be waiting for room in a new or an unbounded pool.
+            free = value - len(self._tasks_running) - len(self._tasks_cancelled)
+        else:
+            free = (
+                self._enough_room._value
+                - self._room_debt
+                + (value - self._pool_size)
+            )
+        self._pool_size = value
+        self._room_debt = max(0, -free)
+        if free > 0:
+            # Releasing (rather than just setting the value) wakes up waiters.
+            self._enough_room._value = free - 1
+            self._enough_room.release()
+        else:
+            self._enough_room._value = 0
 
     @property
     def is_locked(self) -> bool:
@@ -324,7 +346,10 @@ class BaseTaskPool:
             self._tasks_ended[task_id] = self._tasks_running.pop(task_id)
         except KeyError:
             self._tasks_ended[task_id] = self._tasks_cancelled.pop(task_id)
-        self._enough_room.release()
+        if self._room_debt:
+            self._room_debt -= 1
+        else:
+            self._enough_room.release()
         log.info("Ended %s", self._task_name(task_id))
         await execute_optional(custom_callback, args=(task_id,))
 
